@@ -235,3 +235,111 @@ Proof.
   rewrite <- ccosh_rot.
   apply (cconv_ext _ (even_part (cmul ci z))); [apply ccos_psum_rot | apply even_part_conv].
 Qed.
+
+(* ---------- the same four statements as power series sum_n a_n z^n in the vocabulary cpsum (every n, zero
+   coefficients at the other parity; the whole sequence of partial sums converges, not only a subsequence) ---------- *)
+Definition csinh_coeff (n : nat) : C := RtoC (if Nat.odd n then / INR (fact n) else 0).
+Definition ccosh_coeff (n : nat) : C := RtoC (if Nat.even n then / INR (fact n) else 0).
+Definition csin_coeff (n : nat) : C := RtoC (if Nat.odd n then (-1) ^ Nat.div2 n / INR (fact n) else 0).
+Definition ccos_coeff (n : nat) : C := RtoC (if Nat.even n then (-1) ^ Nat.div2 n / INR (fact n) else 0).
+
+Lemma even_double k : Nat.even (2 * k) = true.
+Proof. rewrite Nat.even_mul. reflexivity. Qed.
+Lemma odd_double k : Nat.odd (2 * k) = false.
+Proof. rewrite <- Nat.negb_even, even_double. reflexivity. Qed.
+Lemma even_S_double k : Nat.even (S (2 * k)) = false.
+Proof. rewrite Nat.even_succ. apply odd_double. Qed.
+Lemma odd_S_double k : Nat.odd (S (2 * k)) = true.
+Proof. rewrite Nat.odd_succ. apply even_double. Qed.
+
+Lemma csum_interleave_even (f : nat -> C) :
+  (forall k, f (S (2 * k)) = czero) ->
+  forall m, csum f (2 * m) = csum (fun k => f (2 * k)%nat) m /\ csum f (S (2 * m)) = csum (fun k => f (2 * k)%nat) m.
+Proof.
+  intros Ho. induction m as [|m [IH1 IH2]].
+  - split; [reflexivity|]. pose proof (Ho 0%nat) as H1. cbn [Nat.mul Nat.add] in H1.
+    cbn [Nat.mul Nat.add csum]. rewrite H1. ring.
+  - replace (2 * S m)%nat with (S (S (2 * m))) by lia.
+    assert (E : csum f (S (S (2 * m))) = csum (fun k => f (2 * k)%nat) (S m)).
+    { rewrite (csum_S f (S (2 * m))), IH2, (csum_S _ m).
+      replace (2 * S m)%nat with (S (S (2 * m))) by lia. reflexivity. }
+    split; [exact E|].
+    rewrite (csum_S f (S (S (2 * m)))), E.
+    replace (S (S (S (2 * m)))) with (S (2 * S m)) by lia. rewrite Ho. ring.
+Qed.
+
+Lemma cconv_pairs (s t : nat -> C) l :
+  (forall m, s (2 * m)%nat = t m) -> (forall m, s (S (2 * m)) = t m) -> cconv t l -> cconv s l.
+Proof.
+  intros He Ho [H1 H2]. split.
+  - apply (Un_cv_pairs (fun N => re (s N)) (fun N => re (t N))); try assumption; intros m; [rewrite He | rewrite Ho]; reflexivity.
+  - apply (Un_cv_pairs (fun N => im (s N)) (fun N => im (t N))); try assumption; intros m; [rewrite He | rewrite Ho]; reflexivity.
+Qed.
+
+Lemma cconv_unshift (s : nat -> C) l : cconv (fun N => s (S N)) l -> cconv s l.
+Proof.
+  intros [H1 H2]. split.
+  - apply (Un_cv_unshift (fun N => re (s N))). exact H1.
+  - apply (Un_cv_unshift (fun N => im (s N))). exact H2.
+Qed.
+
+(* a power series whose odd coefficients vanish *)
+Lemma even_series_conv (a : nat -> C) z l :
+  (forall k, a (S (2 * k)) = czero) ->
+  cconv (csum (fun k => cmul (a (2 * k)%nat) (cpown z (2 * k)))) l -> cconv (cpsum a z) l.
+Proof.
+  intros Ho H.
+  assert (Ho' : forall k, cmul (a (S (2 * k))) (cpown z (S (2 * k))) = czero) by (intros k; rewrite Ho; ring).
+  pose proof (csum_interleave_even (fun n => cmul (a n) (cpown z n)) Ho') as HS.
+  apply (cconv_pairs _ (csum (fun k => cmul (a (2 * k)%nat) (cpown z (2 * k))))); try exact H; intros m; apply HS.
+Qed.
+
+(* a power series whose even coefficients vanish *)
+Lemma odd_series_conv (a : nat -> C) z l :
+  (forall k, a (2 * k)%nat = czero) ->
+  cconv (csum (fun k => cmul (a (S (2 * k))) (cpown z (S (2 * k))))) l -> cconv (cpsum a z) l.
+Proof.
+  intros He H.
+  assert (He' : forall k, cmul (a (S (S (2 * k)))) (cpown z (S (S (2 * k)))) = czero).
+  { intros k. replace (S (S (2 * k))) with (2 * S k)%nat by lia. rewrite He. ring. }
+  pose proof (csum_interleave_even (fun n => cmul (a (S n)) (cpown z (S n))) He') as HS.
+  apply cconv_unshift.
+  apply (cconv_ext _ (csum (fun n => cmul (a (S n)) (cpown z (S n))))).
+  { intros N. unfold cpsum. rewrite csum_shift. pose proof (He 0%nat) as H0. cbn [Nat.mul Nat.add] in H0.
+    rewrite H0. ring. }
+  apply (cconv_pairs _ (csum (fun k => cmul (a (S (2 * k))) (cpown z (S (2 * k)))))); try exact H; intros m; apply HS.
+Qed.
+
+Lemma csinh_power_series z : cconv (cpsum csinh_coeff z) (csinh z).
+Proof.
+  apply odd_series_conv.
+  - intros k. unfold csinh_coeff. rewrite odd_double. reflexivity.
+  - apply (cconv_ext _ (odd_part z)); [|apply odd_part_conv].
+    intros N. apply csum_ext. intros k _. unfold csinh_coeff. rewrite odd_S_double. reflexivity.
+Qed.
+
+Lemma ccosh_power_series z : cconv (cpsum ccosh_coeff z) (ccosh z).
+Proof.
+  apply even_series_conv.
+  - intros k. unfold ccosh_coeff. rewrite even_S_double. reflexivity.
+  - apply (cconv_ext _ (even_part z)); [|apply even_part_conv].
+    intros N. apply csum_ext. intros k _. unfold ccosh_coeff. rewrite even_double. reflexivity.
+Qed.
+
+Lemma csin_power_series z : cconv (cpsum csin_coeff z) (csin z).
+Proof.
+  apply odd_series_conv.
+  - intros k. unfold csin_coeff. rewrite odd_double. reflexivity.
+  - apply (cconv_ext _ (csin_psum z)); [|apply csin_series_lemma].
+    intros N. apply csum_ext. intros k _. unfold csin_coeff.
+    rewrite odd_S_double, Nat.div2_succ_double. replace (2 * k + 1)%nat with (S (2 * k)) by lia. reflexivity.
+Qed.
+
+Lemma ccos_power_series z : cconv (cpsum ccos_coeff z) (ccos z).
+Proof.
+  apply even_series_conv.
+  - intros k. unfold ccos_coeff. rewrite even_S_double. reflexivity.
+  - apply (cconv_ext _ (ccos_psum z)); [|apply ccos_series_lemma].
+    intros N. apply csum_ext. intros k _. unfold ccos_coeff.
+    rewrite even_double, Nat.div2_double. reflexivity.
+Qed.
